@@ -84,6 +84,7 @@ declare = Fn(F, "declare", impl=IMPL, impl_header=IMPL, slot="util", ret="res", 
         C("new_reference_is_next_index", "res is Ok ==> res->Ok_0.0 == old(self).decls@.len() && final(self).decls@.len() == old(self).decls@.len() + 1", ["C15"]),
         C("bound_under_its_parent", "res is Ok ==> forall|k: Seq<char>| #[trigger] spec_lookup(final(self).children_of(%s), k) == (if k == name@ { Some(res->Ok_0) } else { spec_lookup(old(self).children_of(%s), k) })" % (PARENT, PARENT), ["C15"]),
         C("table_stays_well_formed", "res is Ok ==> final(self).wf()", ["C15", "C03"]),
+        C("children_come_after_their_parents", "old(self).forest() ==> final(self).forest()", ["C15", "C12"]),
         C("other_scopes_untouched", "res is Ok ==> (forall|i: int, k: Seq<char>| 0 <= i < old(self).decls@.len() && !(%s is Some && (%s->0).0 == i) ==> #[trigger] spec_lookup(&final(self).decls@[i].children, k) == spec_lookup(&old(self).decls@[i].children, k))"
           " && (%s is Some ==> forall|k: Seq<char>| #[trigger] spec_lookup(&final(self).globals, k) == spec_lookup(&old(self).globals, k))" % (PARENT, PARENT, PARENT), ["C15"]),
         C("error_changes_nothing", "res is Err ==> final(self).decls@ == old(self).decls@ && final(self).globals == old(self).globals", ["C15"]),
